@@ -30,6 +30,8 @@ def plan(tier, seed):
     for (o, r, sk, inc) in ((2, -1, False, False), (2, -1, True, False), (2, -1, False, True), (1, 2, False, False), (5, 0, False, False)):
         gs.append(Group('DTCWTForward[J symbolic,o=%d,ri=%d,skip=%s,include=%s]' % (o, r, sk, inc), MD.g_dtcwt_forward_symJ, (o, r, sk, inc),
                         functions=[(T2, 'DTCWTForward.__init__'), (T2, 'DTCWTForward.forward')], replay=rp('dtcwt_forward', o_dim=o, ri_dim=r)))
+    gs.append(Group('DTCWTForward[J symbolic,filters given as tuples]', MD.g_dtcwt_forward_symJ, (2, -1, False, False, 'symmetric', False, False),
+                    functions=[(T2, 'DTCWTForward.__init__'), (T2, 'DTCWTForward.forward')], replay=rp('dtcwt_forward')))
     gs.append(Group('canary:symbolic-J-step-with-exchanged-tree-filters', MD.g_dtcwt_forward_symJ, (2, -1, False, False, 'symmetric', True), canary=True))
     gs += sign_table_groups()
     gs.append(Group('canary:wrong-interleave', D.g_dt_filter, ('coldfilt', 'symmetric', False, True), canary=True))
@@ -44,7 +46,7 @@ def plan(tier, seed):
         'groups': gs,
         'native': [('oracle_dtcwt.py', [seed] + (['dense'] if dense else []), 'oracle: dual-tree column-operation specs vs dtcwt.numpy.lowlevel'),
                    ('bounded.py', [write_jobs('C03', jobs), seed], 'bounded: real DTCWTForward vs dtcwt.Transform2d.forward (float64), odd sizes and non-multiples of 4')],
-        'level': 'other', 'trusted_base': TRUSTED + ['reference dtcwt 0.14 (oracle)'],
+        'level': 'proof', 'trusted_base': TRUSTED + ['reference dtcwt 0.14 (oracle)'],
         'assumptions': ASSUMPTIONS + DT_ASSUME,
         'explanation': 'contract-based deductive proof of every function between the module and conv2d (symm_pad_1d, prep_filt, colfilter, rowfilter, coldfilt, rowdfilt, q2c, '
                        'highs_to_orientations, fwd_j1(_rot), fwd_j2plus(_rot), FWD_J1/FWD_J2PLUS.forward, get_dimensions5, DTCWTForward.__init__/forward) against the reference '
